@@ -68,10 +68,16 @@ pub fn sigma_full(l: L) -> Vec<String> {
             out.push(w.to_string());
         }
     }
+    // ambiguity triggers, plus the function words that sit next to numbers (articles, "half",
+    // "dozen", "pair"): the words a vocabulary extension would most plausibly involve
     let extra: &[&str] = match l {
-        L::En => &["o"],
-        L::Fr => &["un", "le", "du", "l'", "numéro"],
-        _ => &[],
+        L::En => &["o", "a", "an", "the", "of", "no", "half", "dozen", "couple", "pair"],
+        L::Fr => &["un", "le", "du", "l'", "numéro", "une", "la", "les", "de", "des", "demi", "douzaine", "paire"],
+        L::Es => &["el", "la", "de", "medio", "media", "docena", "par"],
+        L::Pt => &["uma", "o", "a", "de", "meio", "meia", "dúzia", "par"],
+        L::It => &["il", "la", "di", "mezzo", "mezza", "dozzina", "paio"],
+        L::De => &["eine", "einen", "einer", "der", "die", "das", "halb", "dutzend", "paar"],
+        L::Nl => &["de", "het", "half", "dozijn", "paar"],
     };
     for w in extra {
         if !out.iter().any(|x| x == w) {
@@ -142,7 +148,7 @@ pub fn cls(l: L) -> Cls {
 /// Σ_cls: one or two representatives per behavioural class, simplest first.
 pub fn sigma_cls(l: L) -> Vec<String> {
     let c = cls(l);
-    let mut v = vec![c.one, c.unit, c.tens, c.ordinary, c.zero, c.hundred, c.conj, ",".to_string(), c.ten, c.teen, c.thousand, c.linking, c.small_ord, c.sep, ".".to_string(), c.unit2, c.million, c.large_ord, c.milliard];
+    let mut v = vec![c.one, c.unit, c.tens, c.ordinary, c.zero, c.hundred, c.conj, ",".to_string(), c.ten, c.teen, c.thousand, c.linking, c.small_ord, c.sep, ".".to_string(), c.unit2, c.million, c.large_ord, c.milliard, " ".to_string(), "-".to_string()];
     if let Some(x) = c.compound {
         v.push(x);
     }
